@@ -4,6 +4,8 @@ import (
 	"fmt"
 	"grog/internal/config"
 	"grog/internal/model"
+	"os"
+	"path/filepath"
 	"slices"
 	"strings"
 )
@@ -20,25 +22,49 @@ func GetTargetChangeHash(target model.Target, dependencyHashes []string) (string
 		return targetDefinitionHash, nil
 	}
 
-	inputContentHash, err := HashFiles(absolutePackagePath, target.Inputs)
+	inputContentHash, err := hashInputFiles(absolutePackagePath, target.Inputs)
 	if err != nil {
 		return "", fmt.Errorf("failed hashing input files %s for target %s: %w", strings.Join(target.Inputs, ","), target.Label, err)
 	}
 	return fmt.Sprintf("%s_%s", targetDefinitionHash, inputContentHash), err
 }
 
-// hashTargetDefinition computes the configured hash of a single file.
+// hashInputFiles hashes, for every input in path order, its path, whether the file exists
+// and the hash of its content. Every part is framed, so bytes cannot move between files and
+// a missing file is not mistaken for an empty one.
+func hashInputFiles(absolutePackagePath string, inputs []string) (string, error) {
+	hasher := GetHasher()
+	slices.Sort(inputs)
+	for _, input := range inputs {
+		fileHash, err := HashFile(filepath.Join(absolutePackagePath, input))
+		if os.IsNotExist(err) {
+			_, err = hasher.WriteString(framed(input) + "\x00")
+		} else if err == nil {
+			_, err = hasher.WriteString(framed(input) + "\x01" + framed(fileHash))
+		}
+		if err != nil {
+			return "", fmt.Errorf("failed opening input file for hashing: %w", err)
+		}
+	}
+	return hasher.SumString(), nil
+}
+
+// hashTargetDefinition computes the configured hash of the target definition.
+// Every component is written in a self-delimiting form so that no two different
+// definitions feed the hasher the same bytes.
 func hashTargetDefinition(target model.Target, dependencyHashes []string) (string, error) {
 	hasher := GetHasher()
 
-	_, err := hasher.WriteString(target.Label.String())
-	_, err = hasher.WriteString(target.Command)
+	_, err := hasher.WriteString(framed(target.Label.Package) + framed(target.Label.Name))
+	_, err = hasher.WriteString(framed(target.Command))
 	_, err = hasher.WriteString(sorted(target.Inputs))
 	_, err = hasher.WriteString(sorted(target.OutputDefinitions()))
 	_, err = hasher.WriteString(sorted(dependencyHashes))
 	_, err = hasher.WriteString(sortedKeyValue(target.Fingerprint))
-	if !target.IsMultiplatformCache() {
-		_, err = hasher.WriteString(config.Global.GetPlatform())
+	if target.IsMultiplatformCache() {
+		_, err = hasher.WriteString(list(nil))
+	} else {
+		_, err = hasher.WriteString(list([]string{framed(config.Global.GetPlatform())}))
 	}
 
 	if err != nil {
@@ -48,20 +74,36 @@ func hashTargetDefinition(target model.Target, dependencyHashes []string) (strin
 	return hasher.SumString(), nil
 }
 
+// framed returns s in a self-delimiting form: every NUL byte is escaped as NUL 0x01 and the
+// string is terminated by NUL NUL, so a sequence of framed strings decodes in only one way.
+func framed(s string) string {
+	return strings.ReplaceAll(s, "\x00", "\x00\x01") + "\x00\x00"
+}
+
+// list encodes self-delimiting elements: 0x02 in front of every element, 0x03 at the end.
+func list(elements []string) string {
+	var b strings.Builder
+	for _, element := range elements {
+		b.WriteString("\x02" + element)
+	}
+	b.WriteString("\x03")
+	return b.String()
+}
+
 func sorted(s []string) string {
 	slices.Sort(s)
-	return strings.Join(s, ",")
+	elements := make([]string, 0, len(s))
+	for _, element := range s {
+		elements = append(elements, framed(element))
+	}
+	return list(elements)
 }
 
 func sortedKeyValue(m map[string]string) string {
-	if len(m) == 0 {
-		return ""
-	}
-
 	entries := make([]string, 0, len(m))
 	for k, v := range m {
-		entries = append(entries, fmt.Sprintf("%s=%s", k, v))
+		entries = append(entries, framed(k)+framed(v))
 	}
-
-	return sorted(entries)
+	slices.Sort(entries)
+	return list(entries)
 }
